@@ -6,9 +6,14 @@ _sat = None
 _mon = None
 
 # fuel budgets (steps) per stratum family; calibrated on the repaired tree (max observed x >= 50)
+# (observed maxima on the repaired tree: tiny/threshold/tuning/planted < 80k, assume 220k, unsat-constructed 290k,
+#  enum 1.3M, default-mode ~1.5M, reduce ~35M, enum-reduce 140M)
 BUDGET_SMALL = 4_000_000
-BUDGET_MID = 60_000_000
-BUDGET_BIG = 400_000_000
+BUDGET_ASSUME = 12_000_000
+BUDGET_MID = 15_000_000
+BUDGET_ENUM = 70_000_000
+BUDGET_DEFAULT = 80_000_000
+BUDGET_BIG = 1_800_000_000
 
 
 def setup():
@@ -25,6 +30,8 @@ def gen(stratum, rng, tier):
     """case = {clauses, calls: [kw...], known: True/False/None, budget}"""
     known = None
     budget = BUDGET_SMALL
+    if stratum == "suite":
+        return {"suite": SUITE_FILES}
     if stratum == "tiny":
         clauses = cnf.tiny(rng)
         calls = [{}]
@@ -49,6 +56,25 @@ def gen(stratum, rng, tier):
         known = True
         calls = [{}, {"luby_factor": rng.choice([1, 5, 20])}]
         budget = BUDGET_MID
+    elif stratum == "mid":
+        # 20-45 variables, clause lengths 2-4 around a planted model: deep decision levels, binary implications,
+        # backjumps over many levels (certificate check is size-independent; SAT by construction)
+        n = rng.randint(20, 45)
+        model = {v: rng.random() < 0.5 for v in range(1, n + 1)}
+        clauses = []
+        target = int(n * rng.uniform(0.7, 3.4))  # sparse formulas reach deep decision levels
+        while len(clauses) < target:
+            c = cnf.rand_clause(rng, n, rng.choice([2, 2, 3, 3, 3, 4]))
+            if any(model[abs(l)] == (l > 0) for l in c):
+                clauses.append(c)
+        known = True
+        calls = [{}, {"luby_factor": rng.choice([1, 2, 5])}]
+        if rng.random() < 0.4:
+            calls.append({"solution_limit": rng.choice([2, 5, 20]), "luby_factor": rng.choice([1, 3, 100])})
+        if rng.random() < 0.4:
+            lits = [v if model[v] else -v for v in rng.sample(range(1, n + 1), 2)]
+            calls.append({"assumptions": lits})
+        budget = BUDGET_MID
     elif stratum == "enum":
         n = rng.randint(2, 9)
         clauses = [cnf.rand_clause(rng, n, rng.choice([2, 3, 3, 4])) for _ in range(rng.randint(1, int(n * 2.2) + 1))]
@@ -56,6 +82,7 @@ def gen(stratum, rng, tier):
             clauses.append([rng.choice([-1, 1]) * rng.randint(1, n)])
         calls = [{"solution_limit": sl, "luby_factor": rng.choice([1, 2, 100])} for sl in rng.sample([2, 5, 50, 10**6], 2)]
         calls.append({"solution_limit": 10**6, "assumptions": cnf.with_assumptions(rng, clauses, 2)})
+        budget = BUDGET_ENUM
     elif stratum == "assume":
         clauses = cnf.tiny(rng) if rng.random() < 0.6 else cnf.threshold(rng, 8, 13)
         calls = []
@@ -64,6 +91,7 @@ def gen(stratum, rng, tier):
             if rng.random() < 0.4:
                 kw["solution_limit"] = rng.choice([2, 10, 10**6])
             calls.append(kw)
+        budget = BUDGET_ASSUME
     elif stratum == "tuning":
         clauses = cnf.threshold(rng, 9, 15) if rng.random() < 0.7 else cnf.tiny(rng)
         calls = [cnf.tuning(rng) for _ in range(3)]
@@ -81,20 +109,18 @@ def gen(stratum, rng, tier):
                  {"max_restarts": rng.choice([0, 1, 3]), "luby_factor": rng.choice([1, 2, 3])}]
         budget = BUDGET_MID
     elif stratum == "default-mode":
-        # all defaults, needs > 100 conflicts so that the first restart (luby_factor=100) fires
+        # all defaults; needs > 100 conflicts so that the first restart (luby_factor=100) fires
         r = rng.random()
-        if r < 0.35:
+        if r < 0.5:
             p = rng.randint(6, 7)
             clauses = cnf.pigeonhole(p, p - 1)
             known = False
-        elif r < 0.7:
-            clauses, _ = cnf.planted(rng, 50, 70, ratio=rng.uniform(4.0, 4.3))
-            known = True
         else:
-            clauses = cnf.entailed_negation(rng)
-            known = False
+            n = rng.randint(45, 75)
+            clauses = [cnf.rand_clause(rng, n, 3) for _ in range(int(n * rng.uniform(4.2, 4.6)))]
+            known = "dpll"  # status from the independent DPLL oracle (None if it gives up)
         calls = [{}]
-        budget = BUDGET_BIG
+        budget = BUDGET_DEFAULT
     elif stratum == "unsat-constructed":
         r = rng.random()
         if r < 0.4:
@@ -130,11 +156,61 @@ def gen(stratum, rng, tier):
     return {"clauses": shuffled, "calls": calls, "known": known, "budget": budget}
 
 
+SUITE_FILES = ["tests/solvors/test_sat.py", "tests/solvors/test_cp.py"]
+
+
+def run_suite(case, obs, judge):
+    """Thorough tier: the repository's own SAT/CP tests executed under the monitors as extra workload.
+    Their assertions are ignored; only the monitor verdicts on the recorded solve_sat calls count."""
+    import contextlib
+    import io
+    import os
+
+    import pytest
+
+    repo = os.environ.get("VERIF_REPO", "/repo")
+    files = [os.path.join(repo, f) for f in case["suite"] if os.path.exists(os.path.join(repo, f))]
+    if not files:
+        obs.event("suite.no-test-files")
+        return
+    _mon.drain()
+    cwd = os.getcwd()
+    os.chdir(repo)
+    try:
+        with contextlib.redirect_stdout(io.StringIO()), contextlib.redirect_stderr(io.StringIO()):
+            pytest.main(["-q", "-x", "-p", "no:cacheprovider", "--no-cov", "-o", "addopts=", "--timeout=600", *files])
+    except SystemExit:
+        pass
+    finally:
+        os.chdir(cwd)
+    for rec in _mon.drain():
+        obs.event("suite.sat-calls")
+        if rec["result"] is None:
+            continue
+        nv = len({abs(l) for c in rec["clauses"] for l in c})
+        obs.event("suite.sat-calls-over-16-vars" if nv > 16 else "suite.sat-calls-upto-16-vars")
+        for name, n in rec["l2"].items():
+            obs.event("l2." + name, n)
+        if judge == "C01":
+            _mon.judge_c01(rec, obs)
+        else:
+            _mon.judge_c02(rec, obs)
+    obs.nontrivial = True
+
+
 def run(case, obs, judge):
     """judge: 'C01' or 'C02'."""
     from vf.common import call, is_crash
 
+    if "suite" in case:
+        return run_suite(case, obs, judge)
+
     clauses = case["clauses"]
+    if case.get("known") == "dpll":
+        from vf.oracles import sat as osat
+
+        case = dict(case, known=osat.dpll_sat(clauses, limit=3_000_000))
+        obs.event("c02.dpll-oracle-decided" if case["known"] is not None else "c02.dpll-oracle-gave-up")
     anomalies = False
     total_conflicts = 0
     total_models = 0
@@ -169,6 +245,8 @@ def run(case, obs, judge):
             if c:
                 obs.event("sat.conflicts", c.get("conflicts") or 0)
                 obs.event("sat.restarts", c.get("restarts") or 0)
+                if (c.get("restarts") or 0) >= 1 and not kw:
+                    obs.event("sat.default-config-run-with-restart")
             if judge == "C01":
                 _mon.judge_c01(rec, obs)
             else:
@@ -196,6 +274,8 @@ def run(case, obs, judge):
 
 
 def shrink(case):
+    if "suite" in case:
+        return
     case = dict(case, known=None)  # by-construction status does not survive dropping clauses/literals
     cl = case["clauses"]
     if len(case["calls"]) > 1:
